@@ -49,6 +49,25 @@ KRat(m, pd, x, y) ==
     [] m.name = "gauss"  -> <<ExpNeg(GaussArg(m, pd, x, y)), 1>>
 KVal(m, x, y) == KRat(m, 1, x, y)[1]         \* integer records: an integer
 
+\* Polynomial kernels with a half-integer degree d/2 (m.dd = 2, m.d odd; m.dd = 1: the integer degree m.d).
+\* With base B = bn/pd^2 (bn = <x,y> + c pd^2 >= 0) the value is bn^((d-1)/2) sqrt(bn) / pd^d.  sqrt(bn) comes from
+\* the exact integer square root: SqrtLo(bn) = <<floor(sqrt(bn) KS/f), f>> (f = 1 for bn <= 21, else 10), so the value
+\* times KS lies in [lonum/den, hinum/den]; both ends coincide when bn is a perfect square (the value is then exact).
+\* A negative base with a fractional degree has no real value (powf gives NaN): such cases are never generated.
+IsFrac(m) == m.name = "poly" /\ m.dd = 2
+SqrtLo(bn) == IF bn <= 21 THEN <<Isqrt(bn * 100000000), 1>> ELSE <<Isqrt(bn * 1000000), 10>>
+SqrtExact(bn, s) == s[1] * s[1] = bn * (KS \div s[2]) * (KS \div s[2])
+FracBase(m, pd, x, y) == Dot(x, y) + m.c * pd * pd
+\* <<lonum, hinum, den>> : lonum/den <= kernel value * KS <= hinum/den   (lonum = hinum for the exact kernels)
+KBounds(m, pd, x, y) ==
+  IF IsFrac(m)
+    THEN LET bn == FracBase(m, pd, x, y)
+             s  == SqrtLo(bn)
+             w  == IPow(bn, (m.d - 1) \div 2) * s[2]
+         IN <<w * s[1], w * (IF SqrtExact(bn, s) THEN s[1] ELSE s[1] + 1), IPow(pd, m.d)>>
+    ELSE LET r == KRat(m, pd, x, y) IN <<r[1], r[1], r[2]>>
+FracSafe(m, pd, x, y) == IsFrac(m) => (FracBase(m, pd, x, y) >= 0 /\ FracBase(m, pd, x, y) <= 2147)
+
 \* allowance for |observed - KVal|: half a unit of quantisation, the table error, and for f32
 \* the relative precision of the type (2^-24 per operation, a handful of operations)
 ValSlack(m, ft, exact) ==
@@ -96,8 +115,10 @@ PatOK(P, k, pat) == PatBad(P, k, pat) = {}
 ValsKernel(P, pd, m, ft, pat, val) ==
   \A i, j \in 1..Len(P) :
      IF pat[i][j] = 1
-       THEN LET ex == KRat(m, pd, P[i], P[j]) IN
-            Abs(val[i][j] * ex[2] - ex[1]) <= ValSlack(m, ft, ex[1] \div ex[2]) * ex[2]
+       THEN /\ FracSafe(m, pd, P[i], P[j])
+            /\ LET b == KBounds(m, pd, P[i], P[j])
+                    sl == ValSlack(m, ft, b[2] \div b[3]) * b[3]
+                IN val[i][j] * b[3] >= b[1] - sl /\ val[i][j] * b[3] <= b[2] + sl
        ELSE val[i][j] = 0
 ValsSym(P, val) == \A i, j \in 1..Len(P) : val[i][j] = val[j][i]
 GaussUnitDiag(P, m, val) == m.name = "gauss" => \A i \in 1..Len(P) : val[i][i] = KS
@@ -166,11 +187,11 @@ RECURSIVE SortedSeqs(_, _)
 SortedSeqs(S, n) == IF n = 0 THEN {<<>>}
                     ELSE UNION {{Append(s, x) : x \in {y \in S : n = 1 \/ PKey(s[n - 1]) <= PKey(y)}} : s \in SortedSeqs(S, n - 1)}
 
-MethodSeq == << [name |-> "linear", en |-> 1, ed |-> 1, c |-> 0, d |-> 1],
-                [name |-> "gauss",  en |-> 1, ed |-> 2, c |-> 0, d |-> 0],
-                [name |-> "gauss",  en |-> 2, ed |-> 1, c |-> 0, d |-> 0],
-                [name |-> "poly",   en |-> 1, ed |-> 1, c |-> 1, d |-> 2],
-                [name |-> "gauss",  en |-> 5, ed |-> 1, c |-> 0, d |-> 0] >>
+MethodSeq == << [name |-> "linear", en |-> 1, ed |-> 1, c |-> 0, d |-> 1, dd |-> 1],
+                [name |-> "gauss",  en |-> 1, ed |-> 2, c |-> 0, d |-> 0, dd |-> 1],
+                [name |-> "gauss",  en |-> 2, ed |-> 1, c |-> 0, d |-> 0, dd |-> 1],
+                [name |-> "poly",   en |-> 1, ed |-> 1, c |-> 1, d |-> 2, dd |-> 1],
+                [name |-> "gauss",  en |-> 5, ed |-> 1, c |-> 0, d |-> 0, dd |-> 1] >>
 Methods == {MethodSeq[q] : q \in 1..NMeth}
 
 \* Init fixes the first point and the method; one Next step completes the point set and picks k
@@ -222,8 +243,23 @@ InvGaussMono  == (ValState /\ IsGauss) => LET K == KMat  D == DM IN
                     \A i, j, l \in 1..N : D[i][j] <= D[i][l] => K[i][j] >= K[i][l]
 InvGaussPSD   == (ValState /\ IsGauss) => PSDOn(N, KMat, ElemErr + 1)
 InvLinearPSD  == (ValState /\ meth.name = "linear") => PSDOn(N, KMat, 0)          \* Gram matrix: exact
-InvPolyLinear == ValState => KMatOf(pts, [name |-> "poly", en |-> 1, ed |-> 1, c |-> 0, d |-> 1])
-                           = KMatOf(pts, [name |-> "linear", en |-> 1, ed |-> 1, c |-> 0, d |-> 1])
+InvPolyLinear == ValState => KMatOf(pts, [name |-> "poly", en |-> 1, ed |-> 1, c |-> 0, d |-> 1, dd |-> 1])
+                           = KMatOf(pts, [name |-> "linear", en |-> 1, ed |-> 1, c |-> 0, d |-> 1, dd |-> 1])
+\* half-integer degrees: the bracket really brackets (squares compared exactly), is exact on perfect squares,
+\* degree 1/2 squared is degree 1, degree 3/2 = base x degree 1/2, and records/2 scale the value by 2^-d
+InvFrac == (ValState /\ meth.name = "linear") =>
+  \A i, j \in 1..N : \A cc \in {0, 1, 2} :
+     LET h(p) == [name |-> "poly", en |-> 1, ed |-> 1, c |-> cc, d |-> p, dd |-> 2]
+         bn == Dot(pts[i], pts[j]) + cc
+         b1 == KBounds(h(1), 1, pts[i], pts[j])
+         b3 == KBounds(h(3), 1, pts[i], pts[j])
+         b5 == KBounds(h(5), 1, pts[i], pts[j])
+     IN bn >= 0 =>
+        /\ b1[1] <= b1[2] /\ b1[2] - b1[1] <= 1 /\ b1[3] = 1
+        /\ b1[1] * b1[1] <= bn * KS * KS /\ b1[2] * b1[2] >= bn * KS * KS
+        /\ (\E r \in 0..5 : r * r = bn) => (b1[1] = b1[2] /\ b1[1] * b1[1] = bn * KS * KS)
+        /\ b3 = <<bn * b1[1], bn * b1[2], 1>> /\ b5 = <<bn * bn * b1[1], bn * bn * b1[2], 1>>
+        /\ KBounds(h(1), 2, pts[i], pts[j])[3] = 2 /\ KBounds(h(3), 2, pts[i], pts[j])[3] = 8
 \* the pattern relation is satisfiable under both tie resolutions, and decides everything without ties
 InvPatFull     == PatState => PatOK(pts, kk, FullPat)
 InvPatMin      == PatState => PatOK(pts, kk, MinPat)
